@@ -628,6 +628,7 @@ fn exec_c07_inner(sc: &C07Scenario) -> Outcome {
         }
         // (3) later edits re-flag exactly
         let mut edited: BTreeSet<String> = BTreeSet::new();
+        let at_update = e.model.wt.clone();
         for op in &ph.edits {
             if let Err(m) = e.repo_op(op) {
                 out.advisories.push(format!("edit failed: {}", m));
@@ -655,7 +656,14 @@ fn exec_c07_inner(sc: &C07Scenario) -> Outcome {
             out.trace.push(format!("p{} edit {:?}", pi, op));
         }
         // an untracked file that was created and then deleted again is simply gone: not a change
-        let want: BTreeSet<String> = edited.iter().filter(|p| e.model.wt.contains_key(*p) || e.model.head().contains_key(*p) || e.model.index.contains_key(*p)).cloned().collect();
+        // ... and so is a path whose content is again what it was at the update (line terminators flipped twice)
+        // ... and so is a path that differs from the checkpoint commit no longer (a dirty file flipped back to its
+        // committed content: content it had)
+        let differs_from_commit = {
+            let head_tree = e.model.head().clone();
+            e.model.changes_vs_worktree(&head_tree)
+        };
+        let want: BTreeSet<String> = edited.iter().filter(|p| differs_from_commit.contains(*p)).filter(|p| e.model.wt.get(*p) != at_update.get(*p)).cloned().collect();
         // monorail is asked first; raw git (whose `diff` refreshes the index's stat cache) only afterwards
         let a = e.w.cli(&["analyze", "--changes"]);
         out.sub_evals += 1;
